@@ -51,6 +51,16 @@ POOL: dict[str, list[str]] = {
         R + "from typing import Union\nfrom typing_extensions import Literal\n\ndef f(t: tuple[Literal['a', 'b', 1], ...], s: set[Union[bytes, float]]) -> None:\n    for x in t:\n        reveal_type(x)\n    for y in s:\n        reveal_type(y)\n    reveal_type(t[0])\n",
         R + "from typing import Union\nfrom typing_extensions import Literal\n\ndef f(t: tuple[Literal[1, 'b', 'a'], ...], s: set[Union[float, bytes]]) -> None:\n    for x in t:\n        reveal_type(x)\n    for y in s:\n        reveal_type(y)\n    reveal_type(t[0])\n",
     ],
+    # calls to typeshed functions whose parameters are generic structural protocols (abs, round, divmod, pow, sum, max,
+    # sorted, ...): the protocol-compatibility cache and the signatures live in the Checker and are shared by every file
+    # it checks, so a program calling them with union arguments, one calling them with plain arguments and one calling
+    # them with other plain types must each render the same whatever was checked before (all ordered pairs are run)
+    "sharedsig": [
+        R + "from fractions import Fraction\nfrom typing import Union\n\ndef f(x: Union[int, float], y: Union[float, Fraction], z: Union[int, bool], s: Union[list[int], tuple[float, ...]]) -> None:\n    reveal_type(abs(x))\n    reveal_type(round(y, 1))\n    reveal_type(round(y))\n    reveal_type(divmod(x, z))\n    reveal_type(pow(z, 2))\n    reveal_type(sum(s))\n    reveal_type(max(s))\n    reveal_type(sorted(s))\n    reveal_type(abs(z))\n    reveal_type(min(x, y))\n    abs('no')\n    round(None)\n",
+        R + "\ndef f(n: int, f: float, xs: list[int]) -> None:\n    reveal_type(abs(n))\n    reveal_type(round(f, 2))\n    reveal_type(round(f))\n    reveal_type(divmod(n, n))\n    reveal_type(pow(n, 2))\n    reveal_type(sum(xs))\n    reveal_type(max(xs))\n    reveal_type(sorted(xs))\n    reveal_type(abs(f))\n    reveal_type(min(n, n))\n    abs('no')\n    round(None)\n",
+        R + "from fractions import Fraction\n\ndef f(b: bool, q: Fraction, c: complex, ts: tuple[float, ...]) -> None:\n    reveal_type(abs(b))\n    reveal_type(abs(q))\n    reveal_type(abs(c))\n    reveal_type(round(q, 2))\n    reveal_type(round(q))\n    reveal_type(divmod(b, b))\n    reveal_type(pow(b, 2))\n    reveal_type(sum(ts))\n    reveal_type(max(ts))\n    reveal_type(sorted(ts))\n    reveal_type(min(q, q))\n    abs('no')\n    round(None)\n",
+        R + "from typing import Protocol, TypeVar, Union\n\nT = TypeVar('T', covariant=True)\n\nclass HasGet(Protocol[T]):\n    def get(self) -> T:\n        raise NotImplementedError\n\nclass GI:\n    def get(self) -> int:\n        return 1\n\nclass GS:\n    def get(self) -> str:\n        return ''\n\ndef take(h: HasGet[T]) -> T:\n    return h.get()\n\ndef f(u: Union[GI, GS], i: GI, s: GS) -> None:\n    reveal_type(take(u))\n    reveal_type(take(i))\n    reveal_type(take(s))\n    reveal_type(take(u))\n    take(1)\n",
+    ],
     "narrow": [
         R + "from typing import Union, Optional\n\ndef f(x: Union[int, str, None, list[int], tuple[str, ...]]) -> None:\n    if not x:\n        reveal_type(x)\n    elif isinstance(x, (int, list)):\n        reveal_type(x)\n    else:\n        reveal_type(x)\n    while x:\n        reveal_type(x)\n        x = None\n",
     ],
